@@ -23,12 +23,14 @@ COMMON := -g -pthread -w -fno-omit-frame-pointer $(INC)
 FLAGS_plain := -O2
 FLAGS_san   := -O1 -fsanitize=address,undefined -fno-sanitize=alignment,vptr -fno-sanitize-recover=undefined
 FLAGS_sched := -O1 -fsanitize=address -DVERIF_SCHED -include $(V)/engines/sched/ff_shim.hpp
+FLAGS_schedp := -O1 -DVERIF_SCHED -include $(V)/engines/sched/ff_shim.hpp
 FLAGS_tsan  := -O1 -fsanitize=thread -DVERIF_SCHED -DVERIF_TSAN -include $(V)/engines/sched/ff_shim.hpp
 GENFLAGS_plain := -O0
 GENFLAGS_san   := -O0 -fsanitize=address
 GENFLAGS_sched := -O0 -fsanitize=address
+GENFLAGS_schedp := -O0
 GENFLAGS_tsan  := -O0 -fsanitize=thread
-VARIANTS := plain san sched tsan
+VARIANTS := plain san sched schedp tsan
 
 LIBS := -lPocoFoundation -lPocoNet -lPocoUtil -lz -lpthread -ldl
 
@@ -73,7 +75,7 @@ endef
 $(foreach v,$(VARIANTS),$(eval $(call VARIANT_RULES,$(v))))
 
 # the scheduler TU is never instrumented (raw futex hand-offs must stay invisible to TSan)
-$(B)/sched/eng/sched/sched.o $(B)/tsan/eng/sched/sched.o: $(V)/engines/sched/sched.cpp
+$(B)/sched/eng/sched/sched.o $(B)/schedp/eng/sched/sched.o $(B)/tsan/eng/sched/sched.o: $(V)/engines/sched/sched.cpp
 	@mkdir -p $(dir $@)
 	$(CXX) -std=c++14 -g -O1 -w -fno-omit-frame-pointer $(if $(findstring /tsan/,$@),-DVERIF_TSAN,) -I$(V)/engines -MMD -MP -c $< -o $@
 
